@@ -260,3 +260,149 @@ func ruleEndOfInputClosesAll(w *World, r *Report) {
 	}
 	r.Expect("returns inside the opened-blocks loop of the block-phase driver", n, 1)
 }
+
+// ---- C16-R ---------------------------------------------------------------------------------------------
+
+// ruleDocumentStateCleared: what a document's parse accumulated in the context is gone when the AST transformer
+// that consumes it returns, whatever path it took.
+func ruleDocumentStateCleared(w *World, r *Report) {
+	r.Rule("C16-R", "Document-level accumulators (context keys that a parser method of the module sets to a non-nil value and that an AST transformer of the same package reads) are cleared by that transformer on every path: at every return of Transform each such key has been Set to nil, or was just seen to hold nil. A parse context may be reused for the next document (parser.WithContext); a list that survives is counted again — reference counts, ref indexes and back-links then include another document's references.")
+	at := w.Iface("parser", "ASTTransformer")
+	// accumulators: keys Set to non-nil in some non-transformer function, per package
+	accum := map[*ssa.Global]bool{}
+	for _, fn := range w.Funcs {
+		for _, b := range fn.Blocks {
+			for _, ins := range b.Instrs {
+				if c, ok := ins.(ssa.CallInstruction); ok {
+					if g, op := ctxKeyOf(c); g != nil && op == "Set" && !isNilConst(stripMakeIface(c.Common().Args[1])) {
+						accum[g] = true
+					}
+				}
+			}
+		}
+	}
+	n := 0
+	for _, t := range w.Implementers(at) {
+		tr := w.MethodOf(t, "Transform")
+		if tr == nil || !w.InModule(tr) {
+			continue
+		}
+		// keys this transformer reads
+		keys := map[*ssa.Global]bool{}
+		for _, b := range tr.Blocks {
+			for _, ins := range b.Instrs {
+				if c, ok := ins.(ssa.CallInstruction); ok {
+					if g, op := ctxKeyOf(c); g != nil && accum[g] && g.Pkg == tr.Pkg && (op == "Get" || op == "Set") {
+						keys[g] = true
+					}
+				}
+			}
+		}
+		var ks []*ssa.Global
+		for g := range keys {
+			ks = append(ks, g)
+		}
+		sort.Slice(ks, func(i, j int) bool { return ks[i].Name() < ks[j].Name() })
+		for _, g := range ks {
+			n++
+			key := fmt.Sprintf("%s.Transform clears %s", typeShort(t), g.Name())
+			// forward must-analysis: clean[b] at block entry
+			getOf := func(v ssa.Value) bool { // v is the result of pc.Get(g)
+				for _, leaf := range phiLeaves(throughCell(v)) {
+					c, ok := throughCell(leaf).(*ssa.Call)
+					if !ok {
+						return false
+					}
+					if g2, op := ctxKeyOf(c); g2 != g || op != "Get" {
+						return false
+					}
+				}
+				return true
+			}
+			in := map[*ssa.BasicBlock]bool{}
+			for _, b := range tr.Blocks {
+				in[b] = true // optimistic start for a must-analysis
+			}
+			in[tr.Blocks[0]] = false
+			out := func(b *ssa.BasicBlock, succ int) bool {
+				st := in[b]
+				for _, ins := range b.Instrs {
+					if c, ok := ins.(ssa.CallInstruction); ok {
+						if g2, op := ctxKeyOf(c); g2 == g && op == "Set" {
+							st = isNilConst(stripMakeIface(c.Common().Args[1]))
+						} else if g2 == nil && !c.Common().IsInvoke() {
+							if cal := c.Common().StaticCallee(); cal != nil && w.InModule(cal) && w.mayStoreKey(cal, g, map[*ssa.Function]bool{}) {
+								st = false
+							}
+						}
+					}
+				}
+				if iff, ok := b.Instrs[len(b.Instrs)-1].(*ssa.If); ok && len(b.Succs) == 2 {
+					if x, isNil, isT := nilTest(iff.Cond); isT && getOf(x) {
+						if (succ == 0) == isNil {
+							st = true
+						}
+					}
+				}
+				return st
+			}
+			for changed := true; changed; {
+				changed = false
+				for _, b := range tr.Blocks {
+					if b == tr.Blocks[0] || len(b.Preds) == 0 {
+						continue
+					}
+					v := true
+					for _, p := range b.Preds {
+						for si, s := range p.Succs {
+							if s == b && !out(p, si) {
+								v = false
+							}
+						}
+					}
+					if v != in[b] {
+						in[b] = v
+						changed = true
+					}
+				}
+			}
+			bad := ""
+			nRet := 0
+			for _, b := range tr.Blocks {
+				if ret, ok := b.Instrs[len(b.Instrs)-1].(*ssa.Return); ok {
+					nRet++
+					if !out(b, -1) {
+						bad = w.InstrPos(ret)
+					}
+				}
+			}
+			if bad != "" {
+				r.Bad(key, bad, fmt.Sprintf("Transform can return with %s neither set to nil nor seen to be nil: with a reused parse context the next document starts with this document's entries", g.Name()))
+			} else {
+				r.OK(key, w.FnPos(tr), fmt.Sprintf("%d return(s), each reached only after the key was cleared or found nil", nRet))
+			}
+		}
+	}
+	r.Expect("(AST transformer, accumulator key) pairs", n, 1)
+}
+
+// mayStoreKey: fn (or a module function it calls statically) sets key g.
+func (w *World) mayStoreKey(fn *ssa.Function, g *ssa.Global, seen map[*ssa.Function]bool) bool {
+	if seen[fn] || fn.Blocks == nil {
+		return false
+	}
+	seen[fn] = true
+	for _, b := range fn.Blocks {
+		for _, ins := range b.Instrs {
+			if c, ok := ins.(ssa.CallInstruction); ok {
+				if g2, op := ctxKeyOf(c); g2 == g && op == "Set" {
+					return true
+				}
+				if cal := c.Common().StaticCallee(); cal != nil && w.InModule(cal) && w.mayStoreKey(cal, g, seen) {
+					return true
+				}
+			}
+		}
+	}
+	return false
+}
